@@ -88,6 +88,23 @@ Theorem C11_liquidity_share : forall e, 0 <= e < two64 ->
     LiquidityRewardForEpoch e = Ok (lz, lq) /\ 0 <= lz <= z /\ 0 <= lq <= q.
 Proof. exact liquidity_share. Qed.
 
+(* liquidity contract after the bridge-and-liquidity spork (computeLiquidityStakeRewardsForEpoch), for all token tuples,
+   stake entries, balances and additional rewards: credited + minted to the contract - burned from the contract's
+   own balance is exactly the epoch's liquidity share, and credits are at most share + burned additional reward *)
+Theorem C11_liquidity_stake_exact : forall epoch s e halted bal_z bal_q extra_z extra_q ts l r,
+  0 <= epoch < two64 ->
+  liq_stake_rewards epoch s e halted bal_z bal_q extra_z extra_q ts l = Ok (Done r) ->
+  exists z q lz lq, NetworkZnnRewardPerEpoch epoch = Ok z /\ NetworkQsrRewardPerEpoch epoch = Ok q /\
+    LiquidityRewardForEpoch epoch = Ok (lz, lq) /\ 0 <= lz <= z /\ 0 <= lq <= q /\
+    zsum (map (fun c => fst (snd c)) (lq_credits r)) + fst (lq_mint r) - fst (lq_burn r) = lz /\
+    zsum (map (fun c => snd (snd c)) (lq_credits r)) + snd (lq_mint r) - snd (lq_burn r) = lq /\
+    zsum (map (fun c => fst (snd c)) (lq_credits r)) <= lz + fst (lq_burn r) /\
+    zsum (map (fun c => snd (snd c)) (lq_credits r)) <= lq + snd (lq_burn r) /\
+    0 <= fst (lq_mint r) /\ 0 <= snd (lq_mint r) /\
+    (fst (lq_burn r) = 0 \/ (fst (lq_burn r) = extra_z /\ 0 < extra_z <= bal_z)) /\
+    (snd (lq_burn r) = 0 \/ (snd (lq_burn r) = extra_q /\ 0 < extra_q <= bal_q)).
+Proof. exact liquidity_stake_exact. Qed.
+
 (* one Update call of the pillar / stake / sentinel contract: the rewarded epochs are exactly
    LastEpoch+1 .. LastEpoch+k in increasing order, the stored cursor advances by k, every rewarded epoch ended
    at least RewardTimeLimit before the acknowledged momentum, and the next epoch is not yet due *)
